@@ -157,8 +157,9 @@ def replay_case(args):
 
 # ---- Output level ---------------------------------------------------------------------------
 
-def output_wiring(fns, nfff, record):
-    """Output.apply_pdf_theory with eko replaced by recorders; returns observations."""
+def output_wiring(fns, nfff, record, other_card=False):
+    """Output.apply_pdf_theory with eko replaced by recorders; returns observations.
+    other_card: apply_pdf_theory is called with a card that differs from the one stored in the output (scale ratios, coupling reference)."""
     from yadism import output as outmod
     from yadism.esf.result import ESFResult
 
@@ -225,14 +226,26 @@ def output_wiring(fns, nfff, record):
     with npshim.patched((outmod, "runcards", Runcards), (outmod, "Couplings", Couplings), (outmod, "Atlas", Atlas),
                         (outmod, "nf_default", nf_default), (outmod, "couplings_mod_ev", lambda m: ("mod_ev", m)),
                         (outmod, "dictlike", type("D", (), {"load_enum": staticmethod(lambda enum, m: ("enum", m))}))):
+        if other_card:
+            used = dict(theory, XIR=0.9, XIF=1.6, alphas=0.13, Qref=10.0, mc=1.3)
+            res = out.apply_pdf_theory(PDFc(), used)
+            return used, res, seen
         res = out.apply_pdf(PDFc())
     return theory, res, seen
 
 
 def check_output(fns, nfff):
+    out = []
+    for other in (False, True):
+        tag = " [card passed to apply_pdf_theory differs from the stored one]" if other else ""
+        out += [(lab + tag, a, b) for lab, a, b in _check_output(fns, nfff, other)]
+    return out
+
+
+def _check_output(fns, nfff, other_card):
     rec = {}
     try:
-        theory, res, seen = output_wiring(fns, nfff, rec)
+        theory, res, seen = output_wiring(fns, nfff, rec, other_card)
     except ValueError as e:
         return [("unknown scheme rejected", fns not in ("ZM-VFNS", "FFNS", "FFN0", "FONLL-FFNS", "FONLL-FFN0"), True)]
     obs = []
